@@ -6,6 +6,7 @@ import (
 	"path/filepath"
 	"sort"
 	"strings"
+	"sync"
 	"sync/atomic"
 
 	"github.com/tucats/ego/internal/resources"
@@ -87,13 +88,24 @@ type Outcome struct {
 
 var dbSeq atomic.Int64
 
-// Store is one fresh SQLite file with one resource handle on it.
+// Store is one SQLite database file (opened once through resources.Open and
+// kept by a worker) with, per execution, a fresh table and a fresh resource
+// handle: acquire() drops the table and builds a new handle value from the
+// pristine one, so no execution sees anything of an earlier one.
 type Store struct {
 	path string
-	h    *resources.ResHandle
+	tmpl *resources.ResHandle // as returned by Open; never used for operations
+	h    *resources.ResHandle // the handle of the current execution
 }
 
-func newStore() (*Store, error) {
+var (
+	poolMu   sync.Mutex
+	pool     []*Store
+	recycled atomic.Int64
+	opened   atomic.Int64
+)
+
+func openStore() (*Store, error) {
 	dir := filepath.Join(os.Getenv("VERIF_SCRATCH"), "c30db")
 	if os.Getenv("VERIF_SCRATCH") == "" {
 		dir = filepath.Join(os.TempDir(), "c30db")
@@ -105,21 +117,88 @@ func newStore() (*Store, error) {
 
 	p := filepath.Join(dir, fmt.Sprintf("r%d.db", dbSeq.Add(1)))
 
-	h, err := resources.Open(Rec{}, "recs", "sqlite://"+p)
+	// synchronous=OFF only removes the fsync per commit (durability against
+	// power loss, which no execution here depends on); it is applied to every
+	// connection of the pool through the driver's own DSN syntax.
+	h, err := resources.Open(Rec{}, "recs", "sqlite://"+p+"?_pragma=synchronous(0)")
 	if err != nil {
 		return nil, err
 	}
 
-	h.SetPrimaryKey("name")
+	opened.Add(1)
 
-	return &Store{path: p, h: h}, nil
+	return &Store{path: p, tmpl: h}, nil
 }
 
-func (s *Store) close() {
-	_ = s.h.Close()
+func (s *Store) destroy() {
+	_ = s.tmpl.Close()
 	_ = os.Remove(s.path)
 	_ = os.Remove(s.path + "-wal")
 	_ = os.Remove(s.path + "-shm")
+}
+
+// fresh gives the store an empty database and a new handle.
+func (s *Store) fresh() error {
+	if _, err := s.tmpl.Database.Exec(`drop table if exists "recs"`); err != nil {
+		return err
+	}
+
+	h := *s.tmpl
+	h.Columns = append([]resources.Column{}, s.tmpl.Columns...)
+	h.OrderList = nil
+	h.Err = nil
+	s.h = &h
+	s.h.SetPrimaryKey("name")
+
+	return nil
+}
+
+// newStore hands out a store in its initial state (no table, new handle).
+func newStore() (*Store, error) {
+	poolMu.Lock()
+
+	var s *Store
+
+	if n := len(pool); n > 0 {
+		s, pool = pool[n-1], pool[:n-1]
+	}
+
+	poolMu.Unlock()
+
+	if s != nil {
+		if err := s.fresh(); err == nil {
+			return s, nil
+		}
+
+		// Something of the last execution still holds the database: give the
+		// file up and start on a new one.
+		s.destroy()
+		recycled.Add(1)
+	}
+
+	s, err := openStore()
+	if err != nil {
+		return nil, err
+	}
+
+	return s, s.fresh()
+}
+
+func (s *Store) close() {
+	poolMu.Lock()
+	pool = append(pool, s)
+	poolMu.Unlock()
+}
+
+func closeAll() {
+	poolMu.Lock()
+	defer poolMu.Unlock()
+
+	for _, s := range pool {
+		s.destroy()
+	}
+
+	pool = nil
 }
 
 func (s *Store) filters(list []Atom) []*resources.Filter {
